@@ -5,6 +5,7 @@ CONSTANTS
  Creators = {1}
  Subscribers = {2}
  OtherType = {}
+ MaxPre = 0
  MaxOps = 3
  MaxSends = 10
  MaxServes = 2
